@@ -171,10 +171,31 @@ def post(recs, ctx):
             # a chunk may only be valid if the fault-free copy also made it valid AND the bytes are there: compare target bytes
             if any(g == '1' and b != '1' for g, b in zip(fg, fb)): ok = False; why = 'chunk valid that the fault-free copy does not validate'
             if fg == fb and got.get('tgt') != base.get('tgt') and all(c == '1' for c in fg): ok = False; why = 'all valid but target differs'
+            # judged on the bytes: a chunk marked valid must have, at its extent of the target file as it is on disk now, bytes with its checksum
+            try:
+                tpath = r['op'].split(' ')[4]
+                after = open(tpath, 'rb').read()
+                hd = Z.parse(ctx['copy_tgt'])
+                off = hd['lead'] + hd['header_len']
+                for c, g in zip(hd['chunks'], fg):
+                    if g == '1' and c['comp_len'] > 0 and Z.H(hd['chunk_hash_type'], after[off + c['start']: off + c['start'] + c['comp_len']]) != c['digest']:
+                        ok = False; why = 'chunk marked valid whose bytes are not in the target'
+            except (OSError, ValueError, IndexError, KeyError):
+                pass
         r['prop'] = ok
-        if not ok: r['sig'] = 'C12/' + m['kind'] + '/' + why.replace(' ', '-')
-        m.pop('base', None)
+        if not ok:
+            r['sig'] = 'C12/' + m['kind'] + '/' + why.replace(' ', '-')
+            if m['kind'] == 'fault-copy' and ctx.get('copy_tgt'): m['tgt_before'] = ctx['copy_tgt'].hex()     # the replay starts from the pristine target
     ctx.pop('copy_tgt', None)
+
+def replay_setup(ctx, rp):
+    tb = (rp.get('meta') or {}).get('tgt_before')
+    if tb:
+        ctx['copy_tgt'] = bytes.fromhex(tb)
+        for op in rp.get('ops', []):
+            t = op.split(' ')
+            if len(t) > 5 and t[1] == 'IOFAULT' and t[2] == 'copy':
+                rp.setdefault('files', {})[t[5].replace('@WORK@/', '')] = tb
 
 def nontrivial(r):
     return 'fired=0' not in r['impl']
@@ -186,4 +207,4 @@ def run(tier, seed, replay=None):
             "(sampled above 120 calls in quick) x {EIO, ENOSPC, EINTR, short counts}, judged against the fault-free result; non-trivial = a "
             "fault actually fired")
     return E.standard_run(PROP, MODULES, gen_cases, tier, seed, replay, ASSUMPTIONS, rule, nontrivial=nontrivial, timeout_s=30,
-                          post=post, project=project)
+                          post=post, project=project, replay_setup=replay_setup)
